@@ -1333,6 +1333,16 @@ async fn main() {
                         };
                         summary.known_hit(&id, case_no, &format!("{} ({}) violates SpendOK but: {}", edit.name, venue, what));
                     }
+                    // the pool takes no staking transaction of another key (repo fix 9879695); C01 asks
+                    // nothing about that, the Accept expectation is only a sanity check of the harness
+                    Accept
+                        if !accepted
+                            && venue == "pool"
+                            && txs[0].transaction_type == TransactionType::BlockStake
+                            && txs[0].from.iter().any(|i| i.public_key != w.node.pk) =>
+                    {
+                        summary.count("pool_refuses_foreign_stake_tx", edit.name);
+                    }
                     Accept if !accepted => {
                         summary.oracle_failure(case_no, &format!("valid transaction ({}) not accepted via {}: {}", edit.name, venue, what), &desc);
                     }
